@@ -658,9 +658,16 @@ func (w *world) exec(line string) {
 		}
 	}
 	guard := func(fn func()) {
+		// a fault on a protected / unmapped page inside the code under test (or inside the reader
+		// callback) becomes a recoverable panic of this goroutine: an observation (`res=crash`), not a
+		// harness crash
+		defer debug.SetPanicOnFault(debug.SetPanicOnFault(true))
 		defer func() {
 			if e := recover(); e != nil {
 				o.res = "panic"
+				if re, ok := e.(runtime.Error); ok && (strings.Contains(re.Error(), "fault") || strings.Contains(re.Error(), "invalid memory address")) {
+					o.res = "crash"
+				}
 				w.dead = true
 			}
 		}()
@@ -992,14 +999,14 @@ func faultsMode(rng *prng.R, pairs bool) {
 }
 
 // random sequences; in the shadow world with random faults, in the real world without.
-func randomMode(rng *prng.R, kind string, cases, length int) {
+func randomMode(rng *prng.R, kind string, cases, length int, faults bool) {
 	sizes := []int{1, 2, 31, 32, 4095, 4096, 4097, 8192, 12288, 5 * 4096}
 	for c := 0; c < cases; c++ {
 		w := newWorld(kind, rng)
 		cur = w
 		impl := []string{"pm", "mg"}[rng.Intn(2)]
 		maybeFlt := func() string {
-			if kind == "real" || rng.Intn(4) != 0 {
+			if kind == "real" || !faults || rng.Intn(4) != 0 {
 				return ""
 			}
 			fs := []fault{{faultPrims[rng.Intn(len(faultPrims))], 1 + rng.Intn(2)}}
@@ -1117,6 +1124,7 @@ func concChild(args []string) int {
 	}
 	var okReads, closedErrs, otherErrs, badBytes, closeRets, closeErrs, afterClose, lateStart int64
 	var closedFlag int32 // set once some Close has returned nil
+	var started, readersDone int64
 	var wg sync.WaitGroup
 	start := make(chan struct{})
 	yield := func(r *prng.R) {
@@ -1135,6 +1143,7 @@ func concChild(args []string) int {
 		wg.Add(1)
 		go func(i int) {
 			defer wg.Done()
+			defer atomic.AddInt64(&readersDone, 1)
 			r := prng.New(uint64(seed)*1000 + uint64(i))
 			<-start
 			for k := 0; k < iters; k++ {
@@ -1142,6 +1151,7 @@ func concChild(args []string) int {
 				var inner func(d int) error
 				inner = func(d int) error {
 					return sec.WithBytes(func(b []byte) error {
+						atomic.AddInt64(&started, 1)
 						if atomic.LoadInt32(&closedFlag) == 1 {
 							// a callback started although a Close had already returned
 							atomic.AddInt64(&lateStart, 1)
@@ -1187,7 +1197,11 @@ func concChild(args []string) int {
 			defer wg.Done()
 			r := prng.New(uint64(seed)*7919 + uint64(i))
 			<-start
-			for k := r.Intn(iters + 1); k > 0; k-- {
+			// close somewhere in the middle of the readers' work (never a timing assumption: the
+			// loop ends as soon as the readers are done or somebody else has closed)
+			threshold := int64(r.Intn(nr*iters/2 + 1))
+			for atomic.LoadInt64(&started) < threshold && atomic.LoadInt64(&readersDone) < int64(nr) &&
+				atomic.LoadInt32(&closedFlag) == 0 {
 				yield(r)
 			}
 			if e := sec.Close(); e != nil {
@@ -1325,6 +1339,7 @@ func main() {
 	cases := flag.Int("cases", 200, "random cases / conc runs")
 	length := flag.Int("len", 30, "ops per random case")
 	file := flag.String("file", "", "replay file")
+	noFaults := flag.Bool("nofaults", false, "random shadow world without injected faults")
 	flag.Parse()
 	switch *mode {
 	case "concchild":
@@ -1338,7 +1353,7 @@ func main() {
 	case "faults":
 		faultsMode(rng, *pairs)
 	case "random":
-		randomMode(rng, *worldKind, *cases, *length)
+		randomMode(rng, *worldKind, *cases, *length, !*noFaults)
 		cur.closeAll()
 	case "conc":
 		concMode(rng, *cases)
